@@ -62,6 +62,7 @@ def run(ctx):
                    "maintenance writes the log / republishes state without holding the writer mutex: it can interleave with an open write transaction", b.file)
 
     writer_rmw_rule(ctx, "C09.3")
+    guard_held_rule(ctx, "C09.4")
 
 
 def writer_rmw_rule(ctx, rid):
@@ -101,3 +102,38 @@ def writer_rmw_rule(ctx, rid):
                        "a writer reads or locks engine state (%s) before it holds the writer mutex: a transaction committing in between is "
                        "overwritten by the result computed from the stale state" % lab, a.call.loc())
     ctx.floor(rid, "engine-state acquisitions inside maintenance writers", n3, 12)
+
+
+def guard_held_rule(ctx, rid):
+    """C09.4: WriteTxn::commit keeps the writer guard until its last log write and publication"""
+    from .. import model as M
+    F = ctx.facts
+    ctx.rule(rid, "WriteTxn::commit holds the writer guard (`_guard`) across every WAL append / fsync and every publication: no drop or move of the guard can be followed by one of them")
+    b = ctx.body(M.COMMIT)
+    sinks = [c for c in b.calls() if c.name in (M.WAL_APPEND, M.WAL_FSYNC, M.WAL_REWRITE)] + [c for c, _ in M.publication_sites(b)]
+    ctx.floor(rid, "log writes and publications in commit", len(sinks), 8)
+    releases = []
+    for bi, blk in enumerate(b.blocks):
+        if blk["c"]:
+            continue
+        t = blk["t"]
+        if t[0] == "drop" and any(isinstance(p, list) and p[0] == "f" and p[2] == "_guard" for p in t[1][1]):
+            releases.append((bi, t[2], "drop at end of scope"))
+        for st in blk["s"]:
+            if st[0] == "a" and st[2][0] == "use" and st[2][1][0] == "m" and any(isinstance(p, list) and p[0] == "f" and p[2] == "_guard" for p in st[2][1][1][1]):
+                releases.append((bi, bi, "moved out (e.g. drop(self._guard))"))
+        if t[0] == "call":
+            for a in t[2]:
+                if a[0] == "m" and any(isinstance(p, list) and p[0] == "f" and p[2] == "_guard" for p in a[1][1]):
+                    releases.append((bi, t[4], "moved into %s" % (t[1].get("r") or t[1].get("d") or "?").split("::")[-1]))
+    ctx.floor(rid, "release points of the writer guard in commit", len(releases), 1)
+    k = 0
+    for bi, nxt, how in releases:
+        after = [s for s in sinks if nxt is not None and s.bb in b.reachable([nxt])]
+        ctx.instance(rid, "commit: guard %s in bb%d — log writes / publications still reachable afterwards: %d" % (how, bi, len(after)))
+        ctx.oblige(not after, rid, "commit:guard-released-early#%d" % k,
+                   "the writer guard is released (%s) while %d log writes / publications of this commit are still to come: the next writer takes its "
+                   "snapshot before this commit is published and overwrites it (lost update)" % (how, len(after)), b.file,
+                   sample={"after": [s.loc() for s in after[:5]]})
+        if after:
+            k += 1
